@@ -58,11 +58,14 @@ const (
 )
 
 type caseSpec struct {
-	Idx    int        `json:"case_index"`
-	Layout string     `json:"layout"` // single | follow
-	SubPkg bool       `json:"sub_package"`
-	Opts   editOpts   `json:"edit_options"`
-	Steps  [][]string `json:"steps"` // evolution kinds per step
+	Idx    int    `json:"case_index"`
+	Layout string `json:"layout"` // single | follow
+	SubPkg bool   `json:"sub_package"`
+	// OmitTemplateComment sets resolver.omit_template_comment (documented option): hand-written doc
+	// comments must survive regeneration under it as well
+	OmitTemplateComment bool       `json:"omit_template_comment"`
+	Opts                editOpts   `json:"edit_options"`
+	Steps               [][]string `json:"steps"` // evolution kinds per step
 }
 
 type runner struct {
@@ -85,6 +88,7 @@ func buildCases(seed int64, n int) []caseSpec {
 			c.Layout = "single"
 		}
 		c.SubPkg = (i/2)%2 == 0
+		c.OmitTemplateComment = i%5 == 2
 		c.Opts.Pure = i%3 == 0
 		if !c.Opts.Pure {
 			c.Opts.TermHelpers = r.Intn(100) < 18
@@ -336,6 +340,9 @@ func (rn *runner) config(c caseSpec, pkg string) string {
 		fmt.Fprintf(&b, "resolver:\n  layout: follow-schema\n  dir: %s\n  package: %s\n  filename_template: \"{name}.resolvers.go\"\n", dir, rpkg)
 	} else {
 		fmt.Fprintf(&b, "resolver:\n  layout: single-file\n  filename: %s\n  package: %s\n  type: Resolver\n", filepath.Join(dir, "resolver.go"), rpkg)
+	}
+	if c.OmitTemplateComment {
+		b.WriteString("  omit_template_comment: true\n")
 	}
 	b.WriteString("skip_mod_tidy: true\nskip_validation: true\n")
 	return b.String()
